@@ -149,6 +149,9 @@ func c21Val(r *gen.Rand, allowEmpty bool) string {
 	if allowEmpty && r.Chance(1, 4) {
 		return ""
 	}
+	if r.Chance(1, 12) { // line breaks and blanks, also at either end (a YAML block scalar ends in a line break)
+		return []string{"message\n", "a\r\n", "two\nlines", "tab\there", " lead", "trail ", "\nx", "x\n\n", "\n", "\r"}[r.Intn(10)]
+	}
 	switch r.Intn(10) {
 	case 0, 1, 2, 3: // ordinary identifiers and paths
 		alpha := "abcdefghijklmnopqrstuvwxyz0123456789-_/."
